@@ -50,6 +50,7 @@ type mModule struct {
 	helpers []mFunc
 	entries []mEntry
 	io      []mIOField // fields of the shared vertex-output / fragment-input struct VO
+	prelude string     // module constants the attribute arguments refer to
 	ctxSeed uint64     // decides the statement context each use / call is placed in (plain, if, switch case, loop body, continuing, ...)
 	wrapN   int
 }
@@ -153,6 +154,8 @@ func subset(c *ctx, n int, p float64) []int {
 
 func genMulti(c *ctx) *mModule {
 	m := &mModule{ctxSeed: c.rng.Uint64()}
+	c.attrConsts = map[int]bool{}
+	defer func() { m.prelude = c.attrPrelude(); c.attrConsts = nil }()
 	usedBind := map[[2]int]bool{}
 	ng := 2 + c.rng.Intn(5)
 	kinds := []string{"storage_rw", "storage_r", "uniform", "private", "workgroup", "storage_rw", "uniform"}
@@ -364,5 +367,6 @@ func (m *mModule) wgsl() string {
 			b.WriteString("  return vec4<f32>(col);\n}\n")
 		}
 	}
+	b.WriteString(m.prelude)
 	return b.String()
 }
